@@ -146,6 +146,10 @@ def multiply(
 def eq(
     p1: Optimized_Point3D[Optimized_Field], p2: Optimized_Point3D[Optimized_Field]
 ) -> bool:
+    # Every triple with z == 0 represents the point at infinity; the
+    # cross-multiplication below would equate (0, 0, 0) with any point.
+    if is_inf(p1) or is_inf(p2):
+        return is_inf(p1) and is_inf(p2)
     x1, y1, z1 = p1
     x2, y2, z2 = p2
     return x1 * z2 == x2 * z1 and y1 * z2 == y2 * z1
